@@ -36,7 +36,6 @@ import (
 	"runtime/pprof"
 	"sort"
 	"strings"
-	"syscall"
 	"time"
 
 	"github.com/cossacklabs/themis/gothemis/keys"
@@ -446,11 +445,11 @@ func (w *warmV2) mutations(x *warmRing, idx int, all []*warmRing) []warmMutation
 			stride = 4
 		}
 	} else if w.cfg.dir {
-		stride = 97
+		stride = 151
 	}
 	fieldShare := 2
 	if w.cfg.dir {
-		fieldShare = 6
+		fieldShare = 9
 	}
 	pos := map[int]bool{}
 	seen := map[string]bool{}
@@ -733,8 +732,8 @@ func (w *warmV2) oneCase(x *warmRing, m *warmMutation) bool {
 	ph("open")
 	w.n++
 	w.count("w_v2_cases")
-	w.count("w_v2_cases_mutation="+m.class)
-	w.count("w_v2_cases_region="+region)
+	w.count("w_v2_cases_mutation=" + m.class)
+	w.count("w_v2_cases_region=" + region)
 	r.SetAdd("w_v2_mutations", m.name())
 	r.SetAdd("w_v2_rings", w.cfg.name+"|"+x.s.path)
 	if m.class == "bit-flip" || m.class == "byte-value" {
@@ -838,14 +837,14 @@ func (w *warmV2) oneCase(x *warmRing, m *warmMutation) bool {
 		}
 		nJudged++
 		w.count("w_v2_ops_checked")
-		w.count("w_v2_ops_checked_handle="+op.handle)
+		w.count("w_v2_ops_checked_handle=" + op.handle)
 		switch {
 		case site != "":
 			violation(fmt.Sprintf("v2 tampering under open handles: %s through %s panics at %s (mutation=%s region=%s)", op.name, op.handle, site, m.name(), region), detail)
 		case err != nil:
-			w.count("w_v2_"+kindOf+"s_failed")
+			w.count("w_v2_" + kindOf + "s_failed")
 			if op.update {
-				w.count("w_v2_updates_failed_op="+op.name+" handle="+op.handle)
+				w.count("w_v2_updates_failed_op=" + op.name + " handle=" + op.handle)
 			}
 		case op.update:
 			// O3
@@ -875,8 +874,15 @@ func (w *warmV2) oneCase(x *warmRing, m *warmMutation) bool {
 		return fail("restore", err)
 	}
 	if m.partner != nil {
+		pnow, _ := w.stored(m.partner.file)
 		if err := w.store(m.partner.file, m.partner.genuine); err != nil {
 			return fail("restore", err)
+		}
+		if !bytes.Equal(pnow, x.genuine) {
+			// the partner's handle got an update through: its view holds changes the storage no longer has
+			if err := w.reopen(m.partner); err != nil {
+				return fail("re-open handles of the ring swapped with", err)
+			}
 		}
 	}
 	ph("restore")
@@ -957,14 +963,6 @@ func runWarmV2(r *ev.Run, cfg config) {
 	}
 }
 
-func warmCPU() float64 {
-	var ru syscall.Rusage
-	if syscall.Getrusage(syscall.RUSAGE_SELF, &ru) != nil {
-		return 0
-	}
-	return float64(ru.Utime.Sec+ru.Stime.Sec) + float64(ru.Utime.Usec+ru.Stime.Usec)/1e6
-}
-
 func runWarm(r *ev.Run) {
 	if p := os.Getenv("C07_CPUPROFILE"); p != "" { // development aid
 		if f, err := os.Create(p); err == nil {
@@ -972,8 +970,6 @@ func runWarm(r *ev.Run) {
 			defer pprof.StopCPUProfile()
 		}
 	}
-	cpu0 := warmCPU()
-	defer func() { r.Extra("warm_cpu_s", fmt.Sprintf("%.1f", warmCPU()-cpu0)) }()
 	if os.Getenv("C07_PROFILE") != "" {
 		warmProfile = map[string]time.Duration{}
 		defer func() {
@@ -990,5 +986,5 @@ func runWarm(r *ev.Run) {
 	for _, cfg := range configs[:3] {
 		runWarmV1(r, cfg)
 	}
-	r.Extra("warm_wall_s(v2/memory, v2/directory, v1 x3)", fmt.Sprintf("%.1f, %.1f, %.1f", t1.Sub(t0).Seconds(), t2.Sub(t1).Seconds(), time.Since(t2).Seconds()))
+	r.Extra("warm_layer_wall_s(v2/memory, v2/directory, v1 x3; runs beside the other layers)", fmt.Sprintf("%.1f, %.1f, %.1f", t1.Sub(t0).Seconds(), t2.Sub(t1).Seconds(), time.Since(t2).Seconds()))
 }
